@@ -78,3 +78,85 @@ Proof.
   - intros v [<-|[<-|[]]]; reflexivity.
   - vm_compute. discriminate.
 Qed.
+
+(* ---- a second instance with a bin strictly between DC and Nyquist: F9, n = 4, w = powers of i ---- *)
+Definition w4 (k : Z) : F9 :=
+  match (k mod 4)%Z with 0%Z => one9 | 1%Z => i9 | 2%Z => (A2, A0) | _ => (A0, A2) end.
+
+Lemma mod4_cases k : (k mod 4 = 0 \/ k mod 4 = 1 \/ k mod 4 = 2 \/ k mod 4 = 3)%Z.
+Proof. pose proof (Z.mod_pos_bound k 4 ltac:(lia)). lia. Qed.
+
+Lemma F9_setting4 : setting F9 z9 one9 add9 mul9 opp9 inv9 conj9 4 w4.
+Proof.
+  constructor.
+  - exact F9_field.
+  - cases9; reflexivity.
+  - cases9; reflexivity.
+  - cases9; reflexivity.
+  - auto.
+  - intros a b. unfold w4. rewrite Z.add_mod by lia.
+    destruct (mod4_cases a) as [Ha|[Ha|[Ha|Ha]]]; destruct (mod4_cases b) as [Hb|[Hb|[Hb|Hb]]];
+      rewrite Ha, Hb; reflexivity.
+  - reflexivity.
+  - intros d Hd. assert (H : (d = 1 \/ d = 2 \/ d = 3)%Z) by (cbn in Hd; lia).
+    destruct H as [ H | [ H | H ] ]; subst d; discriminate.
+  - intros k. unfold w4.
+    replace (- k)%Z with (- (k mod 4) + (- (k / 4)) * 4)%Z by (pose proof (Z.div_mod k 4 ltac:(lia)); lia).
+    rewrite Z_mod_plus_full.
+    destruct (mod4_cases k) as [Ha|[Ha|[Ha|Ha]]]; rewrite Ha; reflexivity.
+  - vm_compute. discriminate.
+  - discriminate.
+Qed.
+
+(* integer shifts as the abstract shift type of the phase-level theorems: Sh = Z,
+   phase s k = w(-(k s)) *)
+Definition phase4 (s : Z) (k : nat) : F9 := w4 (- (Z.of_nat k * s))%Z.
+
+Lemma phase4_hyps :
+  (forall k, phase4 0 k = one9) /\
+  (forall s t k, phase4 (s + t) k = mul9 (phase4 s k) (phase4 t k)) /\
+  (forall s k, mul9 (phase4 (- s) k) (phase4 s k) = one9) /\
+  (forall k, (2 * k <= 4)%nat -> phase4 1 k = w4 (- Z.of_nat k)%Z) /\
+  (forall s, phase4 s 0 = one9).
+Proof.
+  destruct F9_setting4 as [_ _ _ _ _ wadd _ _ _ _ _].
+  assert (H0 : w4 0 = one9) by reflexivity.
+  split; [|split; [|split; [|split]]].
+  - intros k. unfold phase4. now rewrite Z.mul_0_r.
+  - intros s t k. unfold phase4. rewrite <- wadd. f_equal. lia.
+  - intros s k. unfold phase4. rewrite <- wadd. rewrite <- H0. f_equal. lia.
+  - intros k _. unfold phase4. f_equal. lia.
+  - intros s. unfold phase4. reflexivity.
+Qed.
+
+Definition fs4 := fshift1 F9 z9 one9 add9 mul9 inv9 conj9 4 w4.
+Definition ff4 := fshift_fun F9 z9 one9 add9 mul9 inv9 conj9 4 w4.
+(* a real signal with DC, bin-1 and Nyquist content, and its phase tables *)
+Definition x4 : list F9 := [(A1, A0); (A2, A0); z9; (A1, A0)].
+Definition pint4 (m : Z) : list F9 := map (phase4 m) [0; 1; 2]%nat.
+Definition pquart4 : list F9 := [one9; i9; one9].        (* a "fractional" table: i at bin 1, real at Nyquist *)
+
+Lemma F9_examples4 :
+  real_list F9 conj9 x4 /\
+  (* integer shifts of either sign are rolls *)
+  fs4 (pint4 1) x4 = Some (roll_list F9 z9 4 1 x4) /\
+  fs4 (pint4 (-7)) x4 = Some (roll_list F9 z9 4 (-7) x4) /\
+  fs4 (pint4 0) x4 = Some x4 /\
+  (* composition: fractional then integer table = product table (Nyquist factor real) *)
+  (exists y z, fs4 pquart4 x4 = Some y /\ fs4 (pint4 1) y = Some z /\
+               fs4 (lmul F9 mul9 pquart4 (pint4 1)) x4 = Some z /\ y <> x4) /\
+  (* a sinusoid at bin 1 (0 < 1 < 4/2) with complex amplitude c = 1 + i, table with p_1 = i:
+     amplitude multiplied by p_1 *)
+  (forall j, (j < 4)%nat ->
+     ff4 (fun k => nth k pquart4 z9)
+         (fun i => add9 (mul9 (A1, A1) (w4 (Z.of_nat i * 1))) (mul9 (conj9 (A1, A1)) (w4 (- (Z.of_nat i * 1))))) j
+     = add9 (mul9 (mul9 (A1, A1) i9) (w4 (Z.of_nat j * 1)))
+            (mul9 (conj9 (mul9 (A1, A1) i9)) (w4 (- (Z.of_nat j * 1))))).
+Proof.
+  split; [intros v [<-|[<-|[<-|[<-|[]]]]]; reflexivity|].
+  split; [vm_compute; reflexivity|]. split; [vm_compute; reflexivity|]. split; [vm_compute; reflexivity|].
+  split.
+  - eexists. eexists. split; [vm_compute; reflexivity|]. split; [vm_compute; reflexivity|].
+    split; [vm_compute; reflexivity|]. vm_compute. discriminate.
+  - intros j Hj. destruct j as [|[|[|[|j]]]]; try lia; vm_compute; reflexivity.
+Qed.
